@@ -127,17 +127,30 @@ theorem rankAt_ok {rank : List Nat} {n r : Nat} (h : rankAt rank n = .ok r) : r 
     simp [List.getD_eq_getElem?_getD, hr]
   · cases h
 
-theorem ttmExcl_ok {T Y : Dense ℝ} {Us : List (Mat ℝ)} {n : Nat} {tr : Bool} (h : ttmExcl T Us n tr = .ok Y) :
-    n < T.shape.length ∧ Us.length = T.shape.length ∧ Y = ttmFold T (exclList Us T.shape.length n) tr := by
+theorem length_complDims (N n : Nat) (hn : n < N) : (complDims N [n]).length + 1 = N := by
+  have h1 : (List.range N).Perm (complDims N [n] ++ [n]) := by
+    have := (List.filter_append_perm (fun k => !([n].contains k)) (List.range N)).symm
+    have e : (List.range N).filter (fun x => !(fun k => !([n].contains k)) x) = [n] := by
+      have : (fun x => !(fun k => !([n].contains k)) x) = fun k => k == n := by
+        funext k; by_cases hk : k = n <;> simp [hk]
+      rw [this]; exact filter_eq_range N n hn
+    rw [e] at this
+    exact this
+  have := h1.length_eq
+  simpa using this.symm
+
+theorem ttmExcl_ok {T Y : Dense ℝ} {Us : List (Mat ℝ)} {n : Nat} {tr : Bool} (hU : Us.length = T.shape.length)
+    (h : ttmExcl T Us n tr = .ok Y) :
+    n < T.shape.length ∧ Y = ttmFold T (exclList Us T.shape.length n) tr := by
   unfold ttmExcl at h
   split at h
   · rename_i hn
-    refine ⟨hn, ?_, ttmDims_ok h⟩
-    unfold ttmDims at h
-    split at h
-    · cases h
-    · rename_i hl
-      simpa using hl
+    refine ⟨hn, ?_⟩
+    have := (ttmDims_ok h).1
+    rw [ttmPairs_by_mode] at this
+    · exact this
+    · have := length_complDims T.shape.length n hn
+      omega
   · cases h
 
 /-- The monotonicity hypotheses: the strong `nvecs` contract, Ky Fan's principle, and an
@@ -170,7 +183,7 @@ theorem SInv.step {nvecs : Nat → Dense ℝ → Nat → Nat → Mat ℝ} (hC : 
   cases h
   have hr' := rankAt_ok hr
   subst hr'
-  obtain ⟨_, _, hUtv⟩ := ttmExcl_ok hUt
+  obtain ⟨_, hUtv⟩ := ttmExcl_ok hI.lenU hUt
   have hUtw : Ut.WF := by rw [hUtv]; exact ttmFold_WF X hX _ _
   have hUtl : Ut.shape.length = X.shape.length := by rw [hUtv]; exact ttmFold_shape_length _ _ _
   have hUtn : Ut.shape.getD n 0 = X.shape.getD n 0 := by
@@ -268,7 +281,8 @@ theorem sweep_ok {nvecs : Nat → Dense ℝ → Nat → Nat → Mat ℝ} (hC : N
     have hall : ∀ m < X.shape.length, m ∈ order := fun m hm =>
       (isPermOf_perm' hp).mem_iff.2 (List.mem_range.2 hm)
     have hc : core' = ttmFold X (ascList st.U X.shape.length) true := by
-      have := ttmDims_ok hcore
+      have := (ttmDims_ok hcore).1
+      rw [ttmPairs_single _ _ (by rw [hI.lenU]; exact hn)] at this
       rw [this, ttmFold_asc_eq X st.U _ n hn, hUtv]
       rfl
     refine ⟨hI.lenU, fun m hm => hI.ortho m (hall m hm), hc, ?_⟩
